@@ -39,7 +39,7 @@ def instantiate_code(symbol, code, inject={}):
 
 
 dispatch_template = """
-def __WRAP_DISPATCH__(OVLD):
+def __WRAP_DISPATCH__({ov}):
     def __DISPATCH__({args}):
         {body}
 
@@ -48,7 +48,7 @@ def __WRAP_DISPATCH__(OVLD):
 
 
 call_template = """
-{mvar} = OVLD.map[({lookup})]
+{mvar} = {ov}.map[({lookup})]
 return {mvar}({posargs})
 """
 
@@ -89,13 +89,18 @@ def generate_dispatch(ov, arganal):
     for name in spr + spo + pr + po + kr + ko:
         ndb.register(name)
 
+    # Names used by the generated code must not clash with parameter names
     mv = ndb.gensym(desired_name="method")
+    ovn = ndb.gensym(desired_name="OVLD")
+    missing = ndb.gensym(desired_name="MISSING")
+    kwn = ndb.gensym(desired_name="KWARGS")
+    tan = ndb.gensym(desired_name="TARGS")
 
     for name in spr + spo:
         if name in spr:
             args.append(name)
         else:
-            args.append(f"{name}=MISSING")
+            args.append(f"{name}={missing}")
         posargs.append(name)
         lookup.append(f"{lookup_for(i)}({name})")
         i += 1
@@ -111,7 +116,7 @@ def generate_dispatch(ov, arganal):
         if name in pr:
             args.append(name)
         else:
-            args.append(f"{name}=MISSING")
+            args.append(f"{name}={missing}")
         posargs.append(name)
         lookup.append(f"{lookup_for(i)}({name})")
         i += 1
@@ -128,14 +133,16 @@ def generate_dispatch(ov, arganal):
         lookup.append(f"({name!r}, {lookup_for(name)}({name}))")
 
     for name in ko:
-        args.append(f"{name}=MISSING")
-        kwargsstar = "**KWARGS"
-        targsstar = "*TARGS"
-        inits.add("KWARGS = {}")
-        inits.add("TARGS = []")
-        body.append(f"if {name} is not MISSING:")
-        body.append(f"    KWARGS[{name!r}] = {name}")
-        body.append(f"    TARGS.append(({name!r}, {lookup_for(name)}({name})))")
+        args.append(f"{name}={missing}")
+        kwargsstar = f"**{kwn}"
+        targsstar = f"*{tan}"
+        inits.add(f"{kwn} = {{}}")
+        inits.add(f"{tan} = []")
+        body.append(f"if {name} is not {missing}:")
+        body.append(f"    {kwn}[{name!r}] = {name}")
+        body.append(
+            f"    {tan}.append(({name!r}, {lookup_for(name)}({name})))"
+        )
 
     posargs.append(kwargsstar)
     lookup.append(targsstar)
@@ -144,6 +151,7 @@ def generate_dispatch(ov, arganal):
         lookup=join(lookup, trail=True),
         posargs=join(posargs),
         mvar=mv,
+        ov=ovn,
     )
 
     calls = []
@@ -159,26 +167,28 @@ def generate_dispatch(ov, arganal):
                 lookup=join(lookup[: req + i] + kw_lookup, trail=True),
                 posargs=join(posargs[: req + i + 1] + kw_posargs),
                 mvar=mv,
+                ov=ovn,
             )
             # If this argument is omitted, the ones after it must be too
             # (they could have been given by keyword)
             for later in (spo + po)[i + 1 :]:
                 call = (
-                    f"\nif {later} is not MISSING:"
+                    f"\nif {later} is not {missing}:"
                     f"\n    raise TypeError(\"Argument '{later}' was given,"
                     f" but not the preceding argument '{arg}'\")"
                 ) + call
             call = textwrap.indent(call, "        ")
-            calls.append(f"\nif {arg} is MISSING:{call}")
+            calls.append(f"\nif {arg} is {missing}:{call}")
     calls.append(fullcall)
 
     lines = [*inits, *body, textwrap.indent("".join(calls), "        ")]
     code = dispatch_template.format(
+        ov=ovn,
         args=join(args),
         body=join(lines, sep="\n        ").lstrip(),
     )
     wr = instantiate_code(
-        "__WRAP_DISPATCH__", code, inject={"MISSING": MISSING, **ndb.variables}
+        "__WRAP_DISPATCH__", code, inject={missing: MISSING, **ndb.variables}
     )
     return wr(ov)
 
